@@ -68,6 +68,7 @@ type readOp struct {
 	deliverable bool
 	want        []byte
 	reason      string // why nothing may be delivered ("oversize", "fault", ...)
+	bufs        [][]byte
 }
 
 type readSim struct {
@@ -80,12 +81,14 @@ type readSim struct {
 	byKey     map[[32]byte]*bankEntry
 	filterOps int
 	nextID    int
+	pool      [][]byte
+	bigInBank int
 	// reach probes
 	oversizeRejected, exactDelivered, dupDropped, dupAcrossRotation, parked int64
 }
 
 func newReadSim(b *base) *readSim { return &readSim{base: b, byKey: map[[32]byte]*bankEntry{}} }
-func (s *readSim) core() *base     { return s.base }
+func (s *readSim) core() *base    { return s.base }
 
 func (s *readSim) drawConfig() {
 	tp := s.tape
@@ -270,8 +273,20 @@ func (s *readSim) oneStep() {
 		L = int(op.limit)
 	} else {
 		n := s.drawSize(d, L, tc.big)
-		payload = make([]byte, n)
-		fillBytes(payload, uint64(op.id)*0x9e37+uint64(d.rawv(6)))
+		// tag and payload share one allocation (large messages are expensive to touch in the sandbox)
+		op.wire = s.bigAlloc(2 + n)
+		op.bufs = append(op.bufs, op.wire)
+		payload = op.wire[2:]
+		if op.tag == protocol.ProposalPayloadTag && (d.rawv(6)>>8)%8 <= 2 {
+			// will be sent as a zstd frame: mostly zero, a few seed-dependent bytes
+			clear(payload)
+			sm := splitmix{x: uint64(op.id)*0x9e37 + uint64(d.rawv(6))}
+			for i := 0; i < len(payload); i += 4099 {
+				payload[i] = byte(sm.next())
+			}
+		} else {
+			fillPayload(payload, uint64(op.id)*0x9e37+uint64(d.rawv(6)))
+		}
 		if len(payload) >= 4 && bytes.Equal(payload[:4], []byte{0x28, 0xb5, 0x2f, 0xfd}) {
 			payload[0] = 0
 		}
@@ -284,7 +299,7 @@ func (s *readSim) oneStep() {
 		switch k := (d.rawv(6) >> 8) % 8; {
 		case k <= 2:
 			// valid zstd frame whose decompressed size is around the proposal limit
-			content := compressible(payload)
+			content := payload
 			comp, err := zstd.CompressLevel(nil, content, zstd.BestSpeed)
 			if err != nil {
 				s.harnessErr("zstd: %v", err)
@@ -303,7 +318,11 @@ func (s *readSim) oneStep() {
 			from = "invalid zstd"
 		}
 	}
-	op.wire = append([]byte(op.tag), op.payload...)
+	if op.wire != nil && len(op.wire) == 2+len(op.payload) && (len(op.payload) == 0 || &op.wire[2] == &op.payload[0]) {
+		copy(op.wire, op.tag)
+	} else {
+		op.wire = append([]byte(op.tag), op.payload...)
+	}
 	// ---- what may reach the handler
 	switch {
 	case !op.known:
@@ -393,13 +412,75 @@ func (s *readSim) complete(op *readOp) {
 	s.judge(op)
 }
 
-func compressible(seed []byte) []byte {
-	// same length as seed, mostly zero with a few bytes of the seed kept: compresses to almost nothing
-	out := make([]byte, len(seed))
-	for i := 0; i < len(seed); i += 4099 {
-		out[i] = seed[i]
+// bigAlloc hands out message buffers; multi-megabyte ones are recycled (see release) because first-touch
+// page faults dominate the cost of large messages in the sandbox VM.
+func (s *readSim) bigAlloc(n int) []byte {
+	if n < 1<<16 {
+		return make([]byte, n)
 	}
-	return out
+	for i, b := range s.pool {
+		if cap(b) >= n {
+			s.pool = append(s.pool[:i], s.pool[i+1:]...)
+			return b[:n]
+		}
+	}
+	return make([]byte, n, n+n/8+1<<16)
+}
+
+// release returns an operation's large buffers once nothing refers to them any more.
+func (s *readSim) release(op *readOp) {
+	for _, buf := range op.bufs {
+		if cap(buf) < 1<<16 || len(s.pool) >= 6 || len(buf) == 0 {
+			continue
+		}
+		held := false
+		for _, e := range s.bank {
+			if len(e.data) > 0 && sameBacking(e.data, buf) {
+				held = true
+			}
+		}
+		if !held {
+			s.pool = append(s.pool, buf[:0])
+		}
+	}
+	op.bufs = nil
+}
+
+// sameBacking reports whether a lies inside b's backing array.
+func sameBacking(a, b []byte) bool {
+	b = b[:cap(b)]
+	for _, off := range []int{0, 2} {
+		if off < len(b) && &a[0] == &b[off] {
+			return true
+		}
+	}
+	return false
+}
+
+var patternBlock []byte
+
+// fillPayload fills b with seed-dependent bytes; long payloads are stamped from a fixed random block
+// (cheap) with seed-dependent words mixed in every 512 bytes so that every message is unique.
+func fillPayload(b []byte, seed uint64) {
+	if len(b) <= 1<<14 {
+		fillBytes(b, seed)
+		return
+	}
+	if patternBlock == nil {
+		patternBlock = make([]byte, 1<<18)
+		fillBytes(patternBlock, 0x5eed)
+	}
+	off := int(seed % 4093)
+	for i := 0; i < len(b); {
+		i += copy(b[i:], patternBlock[off:])
+		off = 0
+	}
+	sm := splitmix{x: seed}
+	for i := 0; i+8 <= len(b); i += 512 {
+		v := sm.next()
+		b[i], b[i+1], b[i+2], b[i+3], b[i+4], b[i+5], b[i+6], b[i+7] = byte(v), byte(v>>8), byte(v>>16), byte(v>>24), byte(v>>32), byte(v>>40), byte(v>>48), byte(v>>56)
+	}
+	fillBytes(b[len(b)-64:], seed^0xabcdef)
 }
 
 func pickWNoBenign(r int, w []int) int { return pickW(r, w) }
@@ -408,8 +489,8 @@ func pickWNoBenign(r int, w []int) int { return pickW(r, w) }
 func (s *readSim) drawSize(d *stepDraw, L int, big bool) int {
 	j := d.rawv(4)
 	class := pickW(d.mod(3, 100), []int{40, 10, 12, 12, 6, 4, 4, 3, 9})
-	if big && !s.cfg.BigTags && class != 7 {
-		class = 0 // this run keeps the multi-megabyte tags small
+	if big && class != 7 && (!s.cfg.BigTags || (j>>12)%3 != 0) {
+		class = 0 // multi-megabyte messages are expensive: most messages of the big tags stay small
 	}
 	if L == 0 {
 		if class >= 5 {
@@ -534,6 +615,11 @@ func bankKey(tag protocol.Tag, data []byte) [32]byte {
 
 // judge compares what the real peer did with one completed message against the property.
 func (s *readSim) judge(op *readOp) {
+	s.judgeOp(op)
+	s.release(op)
+}
+
+func (s *readSim) judgeOp(op *readOp) {
 	p := op.p
 	var got []network.IncomingMessage
 	for more := true; more; {
@@ -605,14 +691,23 @@ func (s *readSim) judge(op *readOp) {
 			}
 			e.lastSeen = idx
 		} else {
-			e := &bankEntry{tag: op.tag, data: op.want, lastSeen: idx}
+			e := &bankEntry{tag: op.tag, lastSeen: idx}
 			s.byKey[k] = e
-			if len(op.want) < 1<<20 || len(s.bank) < 4 {
+			if len(op.want) < 1<<20 || s.bigInBank < 3 {
+				// kept for later duplicates (only a few of the multi-megabyte ones)
+				e.data = op.want
 				s.bank = append(s.bank, e)
+				if len(op.want) >= 1<<20 {
+					s.bigInBank++
+				}
 			}
 		}
 	}
 	switch {
+	case op.reason == "invalid-zstd":
+		// a broken zstd frame may be rejected or yield whatever the decompressor salvages: the property
+		// only bounds its size (checked above)
+		s.stat("invalid_zstd_frames", 1)
 	case len(got) == 1 && !op.deliverable:
 		cls := "corrupt-delivery"
 		if op.reason == "oversize" || op.reason == "oversize-after-decompression" {
